@@ -97,6 +97,10 @@ def gen_config(rng, big=False):
         "arrays": rng.chance(0.5),
         "mask_dtype": rng.choice(["int", "float", "bool"]),
         "readonly": rng.chance(0.2),          # the caller's arrays are write-protected
+        # the caller's precision, per array (mixed precision is common: profile from a float32 file, geometry in float64)
+        "arr_dtype": dict((k, rng.weighted([("float64", 5), ("float32", 2)])) for k in ("diams", "gs_alt", "gs_pos", "wl", "alts", "r0s", "L0s")),
+        "extra_layers": rng.weighted([(0, 4), (1, 1), (2, 1)]),           # profile arrays longer than n_layers (prefix is used)
+        "extra_gs": rng.weighted([(0, 4), (2, 1)]),                       # more guide-star positions than sensors (as the shipped tests do)
         "np_scalars": rng.chance(0.3),        # n_wfs / n_layers / threads arrive as numpy integers
     }
 
@@ -120,6 +124,8 @@ def gen_sched(rng):
              "slow": {}, "stall": [],
              "tie": [0] if rng.chance(0.3) else [rng.randrange(8) for _ in range(rng.randint(2, 16))],
              "chunk": rng.weighted([("default", 5), ("one", 2), ("single", 1)]),
+             # thread pools only: how many aotools lines a task body runs before the next body in flight gets the baton
+             "tslice": [rng.choice([1, 2, 3, 5, 8, 13, 40, 200]) for _ in range(rng.randint(1, 12))],
              "advance": rng.weighted([(0, 6), (1, 1), (3, 1), (50, 1)])}
     if rng.chance(0.35):
         for _ in range(rng.randint(1, 2)):
@@ -154,7 +160,7 @@ def gen_plan(rng, tier, index=0):
     steps = []
     n_steps = r.randint(3, 24 if big else 10)
     for s in range(n_steps):
-        op = r.weighted([("build", 7), ("recon", 1.5), ("read", 1), ("new", 1)])
+        op = r.weighted([("build", 7), ("recon", 1.5), ("read", 1), ("new", 1), ("reconfig", 1)])
         o = r.randrange(n_obj)
         if op == "build":
             k = r.weighted([(1, 3), (2, 3), (3, 2), (4, 2), (5, 1), (6, 1), (8, 1)])
@@ -164,6 +170,11 @@ def gen_plan(rng, tier, index=0):
             steps.append({"op": "recon", "obj": o, "cond": r.choice([0.0, 0.0, 1e-3, 0.05])})
         elif op == "read":
             steps.append({"op": "read", "obj": o})
+        elif op == "reconfig":
+            # the user changes one ingredient on the live object (a parameter scan) and builds again
+            key = r.choice(["gs_pos", "alts", "gs_alt", "r0s", "L0s", "wl"])
+            steps.append({"op": "reconfig", "obj": o, "key": key, "f": r.choice([0.5, 1.5, 2.0]), "shift": round(r.uniform(-5, 5), 2)})
+            steps.append({"op": "build", "obj": o, "threads": r.choice([1, 2, 3, 4]), "sched": gen_sched(r.sub("sched", s, "rc")), "mode": "inproc"})
         else:
             steps.append({"op": "new", "obj": o, "threads": r.choice([1, 2, 4])})
     # every history contains at least one multi-process build
@@ -185,19 +196,27 @@ def make_object(sc, cfg, threads):
     masks = [numpy.array(m, dtype=cfg.get("mask_dtype", "int")) for m in cfg["masks"]]
     ro = bool(cfg.get("readonly"))
 
-    def arr(x):
-        a = numpy.array(x, dtype=float)
+    dts = cfg.get("arr_dtype") or {}
+
+    def conv(x, key=None):
+        if not cfg.get("arrays"):
+            return list(x)
+        a = numpy.array(x, dtype=(dts.get(key, "float64") if isinstance(dts, dict) else dts))
         if ro:
             a.setflags(write=False)
         return a
     if ro:
         for m in masks:
             m.setflags(write=False)
-    conv = arr if cfg.get("arrays") else (lambda x: list(x))
     ii = (lambda v: numpy.int64(v)) if cfg.get("np_scalars") else (lambda v: v)
+    xl, xg = int(cfg.get("extra_layers", 0)), int(cfg.get("extra_gs", 0))
+    alts = list(cfg["alts"]) + [25000.0 + 1000.0 * k for k in range(xl)]
+    r0s = list(cfg["r0s"]) + [0.3] * xl
+    L0s = list(cfg["L0s"]) + [30.0] * xl
+    gs_pos = [list(g) for g in cfg["gs_pos"]] + [[11.0 * (k + 1), -7.0] for k in range(xg)]
     return sc.CovarianceMatrix(
-        ii(cfg["n_wfs"]), masks, cfg["tel"], conv(cfg["diams"]), conv(cfg["gs_alt"]), conv(cfg["gs_pos"]), conv(cfg["wl"]),
-        ii(cfg["n_layers"]), conv(cfg["alts"]), conv(cfg["r0s"]), conv(cfg["L0s"]), ii(threads))
+        ii(cfg["n_wfs"]), masks, cfg["tel"], conv(cfg["diams"], "diams"), conv(cfg["gs_alt"], "gs_alt"), conv(gs_pos, "gs_pos"), conv(cfg["wl"], "wl"),
+        ii(cfg["n_layers"]), conv(alts, "alts"), conv(r0s, "r0s"), conv(L0s, "L0s"), ii(threads))
 
 
 def _mbytes(m):
@@ -215,7 +234,7 @@ def execute(plan, keep_log=False):
     sc = warm()
     res = core.Result()
     log = core.EventLog(keep_log)
-    objs_cfg = plan["objects"]
+    objs_cfg = json.loads(json.dumps(plan["objects"]))       # reconfig steps change the tracked configuration
     n_obj = len(objs_cfg)
     refs, objs, last, built, hist = {}, {}, {}, {}, {}
 
@@ -265,6 +284,28 @@ def _run_steps(plan, sc, res, log, kern, objs_cfg, n_obj, refs, objs, last, buil
             res.count("op.new")
             continue
         c = obj(o)
+        if op == "reconfig":
+            cfg = objs_cfg[o]
+            key, f, sh = st["key"], st.get("f", 1.0), st.get("shift", 0.0)
+            if key == "gs_pos":
+                cfg[key] = [[round(x + sh, 3), round(y - sh, 3)] for x, y in cfg[key]]
+            elif key == "gs_alt":
+                cfg[key] = [0.0 if a else 90000.0 for a in cfg[key]]
+            elif key == "alts":
+                cfg[key] = sorted(round(a * f + 50.0, 2) for a in cfg[key])
+            else:
+                cfg[key] = [round(x * f, 10) for x in cfg[key]]
+            fresh = make_object(sc, cfg, 1)          # how the constructor would store the new values
+            attr = {"gs_pos": "gs_positions", "alts": "layer_altitudes", "gs_alt": "gs_altitudes", "r0s": "layer_r0s", "L0s": "layer_L0s",
+                    "wl": "wfs_wavelengths"}[key]
+            setattr(c, attr, getattr(fresh, attr))
+            refs.pop(o, None)
+            built.pop(o, None)
+            last.pop(o, None)
+            hist[o] = []
+            res.count("op.reconfig")
+            log.add(si, "reconfig", o, key)
+            continue
         if op == "read":
             d = [int(c.total_subaps), [int(x) for x in c.n_subaps], int(c.threads)]
             if o in last:
